@@ -878,12 +878,12 @@ def failures(case, obs):
                 bad.append(("run-failed", t, f"run {t} raised {st.get('error')} although every call of the "
                                              f"definition has its arguments", None))
             continue
-        if ref is None:
-            bad.append(("run-unexpected", t, f"run {t} succeeded although plain python lacks an argument", None))
-            continue
         macro_level_only = all(o[0] == "run" or o[1] == [] for o in ops[:t])
         if not macro_level_only:
             continue          # the reference for a body edited from inside is not the definition
+        if ref is None:
+            bad.append(("run-unexpected", t, f"run {t} succeeded although plain python lacks an argument", None))
+            continue
         want = [[v] for v in ref]
         if st["outs"] != want:
             bad.append(("run-differs", t, f"run {t} with inputs {args} returned {st['outs']}, plain python gives "
